@@ -174,6 +174,8 @@ type World struct {
 	// SlowVerify > 0 makes the injected signature verifier of new nodes sleep up to that long per call,
 	// which widens the window between the pre-lock checks and the locked section of admission.
 	SlowVerify time.Duration
+	// TruncatedOnce is set after the first truncation of the scenario
+	TruncatedOnce bool
 	// TruncateAt, when set, is the Config.Truncate of new nodes (default: huge, the background truncation never triggers)
 	TruncateAt uint64
 	// Quiet suppresses the snapshot after every operation (long ledgers are observed at milestones).
@@ -213,6 +215,10 @@ func (w *World) Logf(format string, a ...any) {
 // Violate reports a violation of prop if the running check reports that property.
 func (w *World) Violate(prop, sig, detail string) {
 	w.Stats["viol/"+prop+"/"+sig]++
+	if prop == "C01" && w.Report["C07"] && w.TruncatedOnce && (sig == "confirmed-overdraft/validated" || sig == "confirmed-overdraft/root-shortcut") {
+		// C07: "later transfers are validated against the same funds as before"
+		w.Violate("C07", "post-truncation/"+sig, detail)
+	}
 	if !w.Report[prop] {
 		// observed by an oracle of another property than the one under check: counted, not reported
 		w.Res.Count("seen_by_other_oracle/"+prop+"/"+sig, 1)
